@@ -136,6 +136,7 @@ def work(shard, tier):
         from vm import c12
         if name in c12.SLICES:
             inputs += [('date-forced', 'fields', x) for x in c12.date_sources(name, mod, rng, 2 if tier == 'quick' else 20, require_valid=False)]
+        inputs += [('extreme-field', 'window', x) for x in C.synth_field_extremes(name, rng, k=1 if tier == 'quick' else 3, raw=True, cap=300 if tier == 'quick' else 3000)]
         # payload sweep: numbers of the right shape with random digits/letters (rare check values, 1-in-100 branches)
         for v0 in nums[:2]:
             for _ in range(120 if tier == 'quick' else 3000):
